@@ -26,7 +26,10 @@ pub trait MNode: BufMut {
     /// put_slice / put_bytes / put_X are the ones that run (`Box<dyn BufMut>` only forwards some)
     fn write_op(&mut self, op: &WOp) -> Option<()>;
 }
-pub type MN = Box<dyn MNode>;
+/// A boxed node that forwards EVERY `BufMut` method to the concrete node (the crate's own `impl BufMut for Box<T>` forwards
+/// only some of them — e.g. not `has_remaining_mut` / `put_bytes` — which would hide an adapter's overrides from the adapters
+/// built on top of it; that impl is exercised separately by the `box` node).
+pub struct MN(pub Box<dyn MNode>);
 
 pub enum WOp<'a> {
     Slice(&'a [u8]),
@@ -94,6 +97,51 @@ macro_rules! delegate_bufmut {
             for_all_putters!(delegate_putters);
         }
     };
+}
+
+macro_rules! delegate_putters_dyn {
+    (fixed: $(($p:ident, $ty:ty)),* ; var: $(($vp:ident, $vty:ty)),*) => {
+        $( fn $p(&mut self, n: $ty) { BufMut::$p(&mut *self.0, n) } )*
+        $( fn $vp(&mut self, n: $vty, nbytes: usize) { BufMut::$vp(&mut *self.0, n, nbytes) } )*
+    };
+}
+unsafe impl BufMut for MN {
+    fn remaining_mut(&self) -> usize {
+        BufMut::remaining_mut(&*self.0)
+    }
+    unsafe fn advance_mut(&mut self, cnt: usize) {
+        BufMut::advance_mut(&mut *self.0, cnt)
+    }
+    fn has_remaining_mut(&self) -> bool {
+        BufMut::has_remaining_mut(&*self.0)
+    }
+    fn chunk_mut(&mut self) -> &mut UninitSlice {
+        BufMut::chunk_mut(&mut *self.0)
+    }
+    fn put_slice(&mut self, src: &[u8]) {
+        BufMut::put_slice(&mut *self.0, src)
+    }
+    fn put_bytes(&mut self, val: u8, cnt: usize) {
+        BufMut::put_bytes(&mut *self.0, val, cnt)
+    }
+    for_all_putters!(delegate_putters_dyn);
+}
+impl MNode for MN {
+    fn describe(&self) -> String {
+        self.0.describe()
+    }
+    fn guards_ok(&self) -> bool {
+        self.0.guards_ok()
+    }
+    fn put_buf(&mut self, src: tree::N) {
+        self.0.put_buf(src)
+    }
+    fn set_limit(&mut self, n: usize) -> bool {
+        self.0.set_limit(n)
+    }
+    fn write_op(&mut self, op: &WOp) -> Option<()> {
+        self.0.write_op(op)
+    }
 }
 
 pub struct VecNode(pub Vec<u8>, pub usize);
@@ -229,7 +277,7 @@ impl MNode for RefMutM {
     }
 }
 /// `Box<T>` wrapper.
-pub struct BoxedM(pub MN);
+pub struct BoxedM(pub Box<MN>);
 delegate_bufmut!(BoxedM);
 impl MNode for BoxedM {
     fn describe(&self) -> String {
@@ -254,39 +302,39 @@ pub fn parse(tokens: &mut std::slice::Iter<'_, &str>) -> Option<MN> {
             let cap: usize = tokens.next()?.parse().ok()?;
             let mut v = Vec::with_capacity(cap.max(pre.len()));
             v.extend_from_slice(&pre);
-            Box::new(VecNode(v, pre.len()))
+            MN(Box::new(VecNode(v, pre.len())))
         }
         "bmut" => {
             let pre = unhex(tokens.next()?)?;
             let cap: usize = tokens.next()?.parse().ok()?;
             let mut v = BytesMut::with_capacity(cap.max(pre.len()));
             v.extend_from_slice(&pre);
-            Box::new(BmNode(v, pre.len()))
+            MN(Box::new(BmNode(v, pre.len())))
         }
         "slice" => {
             let n: usize = tokens.next()?.parse().ok()?;
             let (p, n) = backing(n);
             let s: &'static mut [u8] = unsafe { std::slice::from_raw_parts_mut(p.add(GUARD), n) };
-            Box::new(SliceNode(s, p, n))
+            MN(Box::new(SliceNode(s, p, n)))
         }
         "uninit" => {
             let n: usize = tokens.next()?.parse().ok()?;
             let (p, n) = backing(n);
             let s: &'static mut [MaybeUninit<u8>] = unsafe { std::slice::from_raw_parts_mut(p.add(GUARD) as *mut MaybeUninit<u8>, n) };
-            Box::new(UninitNode(s, p, n))
+            MN(Box::new(UninitNode(s, p, n)))
         }
         "chain" => {
             let a = parse(tokens)?;
             let b = parse(tokens)?;
-            Box::new(a.chain_mut(b))
+            MN(Box::new(a.chain_mut(b)))
         }
         "limit" => {
             let n: usize = tokens.next()?.parse().ok()?;
             let i = parse(tokens)?;
-            Box::new(i.limit(n))
+            MN(Box::new(i.limit(n)))
         }
-        "ref" => Box::new(RefMutM(Box::leak(Box::new(parse(tokens)?)))),
-        "box" => Box::new(BoxedM(parse(tokens)?)),
+        "ref" => MN(Box::new(RefMutM(Box::leak(Box::new(parse(tokens)?))))),
+        "box" => MN(Box::new(BoxedM(Box::new(parse(tokens)?)))),
         _ => return None,
     })
 }
@@ -473,7 +521,8 @@ fn put_cases(rng: &mut Rng, thorough: bool) {
         for lim in [0usize, 1, 4, 19, 20, 21, usize::MAX] {
             targets.push(format!("limit {} {}", lim, l));
         }
-        for a in ["slice 0", "slice 1", "slice 3", "uninit 2", "limit 2 slice 5", "ref uninit 3"] {
+        for a in ["slice 0", "slice 1", "slice 3", "uninit 2", "limit 2 slice 5", "ref uninit 3", "limit 9 slice 3", "limit 18446744073709551615 uninit 2",
+                  "box limit 4 slice 4"] {
             targets.push(format!("chain {} {}", a, l));
         }
     }
